@@ -310,7 +310,10 @@ def rest(ctx):
            "seek() of a restreamed region succeeds only when it is absolute and targets the current position, and raises otherwise", key="seek no-op only")
     fi, paths = own_method_paths(ctx, "RestreamedBytesIO", "tell")
     ctx.ob("C10.R4", fi, len(paths) == 1 and paths[0].retval == N.selfattr("sincereadwritten"), "tell() of a restreamed region is the count of units read or written so far", key="tell")
-    ctx.floor("C10.R4", 23)
+    # the filler of bit-level layouts: Padding(n, pattern) = Padded(n, Pass, pattern) emits its own pattern, once per unit (shared with C03.R5)
+    from . import C03 as _C03
+    _C03.pad_content(ctx, "C10.R4")
+    ctx.floor("C10.R4", 25)
 
     # ---- R3: lookup tables inverse by construction
     rel = [r for r in M.modules if r.endswith("binary.py")][0]
